@@ -135,7 +135,9 @@ def run(chk: Check) -> None:
                f'{"overwritten afterwards" if other > name_ else "changed after it was copied"} -- the destination does not end up with the source\'s {other}', kind=f'setter-writes-other-property:{name_}->{other}', expr=f'{name_}.setter')
     chk.ob('PROV-namespace-options', pn.qualname, True, f'{len(props)} property setters examined for writes to other copied properties', kind='setter-scan', expr='setters')
     # the options dictionary belongs to the caller (the same one is commonly passed to expose_inputs and expose_outputs): absorb consumes a copy
-    opt = 'namespace_options'
+    # (whatever the local that is consumed is called: it is the receiver of the mutating calls whose contents come from the parameter)
+    cands = sorted({norm(c.func.value) for c in calls_in_func(ab) if isinstance(c.func, ast.Attribute) and isinstance(c.func.value, ast.Name) and c.func.attr in ('pop', 'popitem')})
+    opt = cands[0] if cands else 'namespace_options'
     muts = [c for c in calls_in_func(ab) if isinstance(c.func, ast.Attribute) and norm(c.func.value) == opt and c.func.attr in ('pop', 'popitem', 'clear', 'update', 'setdefault', '__delitem__')]
     rebinds = [n for n in cfg.nodes if n.kind == 'stmt' and isinstance(n.ast, ast.Assign) and norm(n.ast.targets[0]) == opt]
     fresh_ = [n for n in rebinds if all(isinstance(v_, (ast.Dict,)) or (isinstance(v_, ast.Call) and norm(v_.func) in ('dict', 'copy.copy', 'copy.deepcopy')) or (isinstance(v_, ast.Call) and last_name(v_) == 'copy')
@@ -225,14 +227,15 @@ def run(chk: Check) -> None:
 
     # 4. options
     sets = [c for c in calls_in_func(ab) if norm(c.func) == 'setattr' and norm(c.args[0]) == 'self']
-    ok = len(sets) == 1 and isinstance(sets[0].args[2], ast.Call) and norm(sets[0].args[2].func) == 'namespace_options.pop'
+    optvar = norm(sets[0].args[2].func.value) if len(sets) == 1 and isinstance(sets[0].args[2], ast.Call) and isinstance(sets[0].args[2].func, ast.Attribute) else 'namespace_options'
+    ok = len(sets) == 1 and isinstance(sets[0].args[2], ast.Call) and norm(sets[0].args[2].func) == f'{optvar}.pop'
     if ok:
         av = norm(sets[0].args[1])
         ok = [norm(a) for a in sets[0].args[2].args] == [av, f'getattr({src}, {av})']
     chk.ob('PROV-namespace-options', ab, ok, 'every mutable property takes the override from namespace_options if given, else the source namespace\'s value', node=sets[0] if sets else None, kind='pop-with-source-default')
     guard = [t for t in cfg.nodes if t.kind == 'test' and 'is_mutable_property' in norm(t.ast.test)]
     chk.ob('PROV-namespace-options', ab, len(guard) == 1, 'only mutable properties of PortNamespace are copied', kind='mutable-properties')
-    left = [t for t in cfg.nodes if t.kind == 'test' and norm(t.ast.test) == 'namespace_options']
+    left = [t for t in cfg.nodes if t.kind == 'test' and norm(t.ast.test) == optvar]
     ok = len(left) == 1 and not branch_reaches_exit(cfg, left[0], 'true') and bool(sets) and all(cfg.must_pass(cfg.entry, [left[0]], lambda m: any(sets[0] is c for c in _calls(m)) or m.kind == 'iter', edge_ok=no_exc) for _ in [0])
     chk.ob('PROV-namespace-options', ab, ok, 'options that are not PortNamespace properties are an error', kind='leftovers-raise')
     ret = [r for r in ast.walk(ab.node) if isinstance(r, ast.Return) and r.value is not None]
